@@ -90,10 +90,15 @@ Definition holds_fault (a o : list N) : bool :=
            (* reached: exactly k+1 calls on the failed object, the last one being the last log entry *)
            (cnt =? k + 1) && (nth (length log - 3) log 0 =? fo) &&
            negb (rc =? 0) &&
-           (* the io error itself, or NotFound (decoder EOF) / ParentWrite / LeafWrite (fsm encoder reset) *)
+           (* the io error itself, or NotFound (decoder EOF) / ParentWrite / LeafWrite (fsm encoder reset).
+              A connection reset on the stream writer of the fsm encoders (the sites the property anchors the
+              ParentWrite / LeafWrite mapping in: C10_enc_classification_fsm, C10_enc_write_failed_names_item) has to be the write-failed error;
+              which item it names is compared with the model by the correspondence bit *)
            (let kc := kcode (kind_from (arg a 7)) in
+            let reset_write := (arg a 7 =? 2) && (fo =? 4) && ((arg a 4 =? 6) || (arg a 4 =? 8)) in
+            if reset_write then (rc =? 3) || (rc =? 4)
+            else
             ((rc =? 6) && (p =? kc)) || ((rc =? 5) && (p =? kc) && ((arg a 4 =? 10) || (arg a 4 =? 11))) ||
-            (((rc =? 1) || (rc =? 2)) && (arg a 7 =? 1) && (fo =? 3)) ||
-            (((rc =? 3) || (rc =? 4)) && (arg a 7 =? 2) && (fo =? 4) && ((arg a 4 =? 6) || (arg a 4 =? 8)))))
+            (((rc =? 1) || (rc =? 2)) && (arg a 7 =? 1) && (fo =? 3))))
   | _ => false
   end.
